@@ -78,6 +78,9 @@ func checkC17(e *core.Env) {
 	defer inp.Close()
 	defer htt.Close()
 	realCC := ref.CC.(*grpc.ClientConn)
+	ref2 := NewRef(&Service{}, carrierOpt{})
+	defer ref2.Close()
+	realCC2 := ref2.CC.(*grpc.ClientConn)
 
 	// identity with no interceptors
 	for _, b := range []grpc.ClientConnInterface{&fakeBase{}, realCC, inp.CC, htt.CC} {
@@ -363,13 +366,18 @@ func checkC17(e *core.Env) {
 				return streamer(ctx, desc, cc, method, opts...)
 			})
 		}
-		for step, want := range []*grpc.ClientConn{nil, realCC, realCC} {
-			if step == 1 {
+		for step, want := range []*grpc.ClientConn{nil, realCC, realCC, realCC2, realCC2, nil, realCC} {
+			switch step {
+			case 1, 6:
 				lazy.cur = realCC
+			case 3:
+				lazy.cur = realCC2 // fail-over to another connection
+			case 5:
+				lazy.cur = &fakeBase{rec: &c17rec{}, err: errors.New("standby that is not a gRPC connection")}
 			}
 			seen = nil
 			cctx, cancel := context.WithCancel(context.Background())
-			if step == 2 {
+			if step == 2 || step == 4 {
 				st, err := top.NewStream(cctx, ServerStream.StreamDesc(), ServerStream.Method())
 				if err == nil && st != nil {
 					st.CloseSend()
@@ -387,6 +395,44 @@ func checkC17(e *core.Env) {
 			}
 			if len(seen) != depth {
 				e.Violate("call/lazy-base/order", fmt.Sprintf("depth %d, call #%d: %d interceptor hits", depth, step+1, len(seen)), nil)
+			}
+		}
+	}
+	// an interceptor of one channel makes a side call on ANOTHER intercepted channel with the context it was
+	// given (fetching a token, say): that channel's interceptors are told about their own root, not about the
+	// connection of the call the context came from
+	for _, sideReal := range []bool{false, true} {
+		var sideSeen, mainSeen []*grpc.ClientConn
+		var sideRoot grpc.ClientConnInterface = &fakeBase{rec: &c17rec{}, err: errors.New("side service")}
+		wantSide := (*grpc.ClientConn)(nil)
+		if sideReal {
+			sideRoot, wantSide = realCC2, realCC2
+		}
+		side := grpchan.InterceptClientConn(sideRoot, func(ctx context.Context, method string, req, reply interface{}, cc *grpc.ClientConn, invoker grpc.UnaryInvoker, opts ...grpc.CallOption) error {
+			sideSeen = append(sideSeen, cc)
+			return invoker(ctx, method, req, reply, cc, opts...)
+		}, nil)
+		main := grpchan.InterceptClientConn(grpchan.InterceptClientConn(realCC, func(ctx context.Context, method string, req, reply interface{}, cc *grpc.ClientConn, invoker grpc.UnaryInvoker, opts ...grpc.CallOption) error {
+			mainSeen = append(mainSeen, cc)
+			sctx, scancel := context.WithCancel(ctx)
+			side.Invoke(sctx, Unary.Method(), &tpb.Message{}, new(tpb.Message))
+			scancel()
+			return invoker(ctx, method, req, reply, cc, opts...)
+		}, nil), func(ctx context.Context, method string, req, reply interface{}, cc *grpc.ClientConn, invoker grpc.UnaryInvoker, opts ...grpc.CallOption) error {
+			mainSeen = append(mainSeen, cc)
+			return invoker(ctx, method, req, reply, cc, opts...)
+		}, nil)
+		cctx, cancel := context.WithCancel(context.Background())
+		main.Invoke(cctx, Unary.Method(), &tpb.Message{}, new(tpb.Message))
+		cancel()
+		e.Eval(fmt.Sprintf("side-call|real=%v", sideReal), true)
+		if len(sideSeen) != 1 || sideSeen[0] != wantSide {
+			e.Violate("call/side-call/cc", fmt.Sprintf("a side call made from inside another channel's interceptor with that call's context: the side channel's interceptor got cc=%v (hits %d), its own root connection is %p", sideSeen, len(sideSeen), wantSide), nil)
+		}
+		for _, cc := range mainSeen {
+			if cc != realCC {
+				e.Violate("call/side-call/cc", fmt.Sprintf("the main channel's interceptors got cc=%p, want %p", cc, realCC), nil)
+				break
 			}
 		}
 	}
